@@ -244,6 +244,7 @@ let c03 s b =
       end
 
 (* ---- C05: interpreter grad-slice evaluation, every node exported ------------------ *)
+let cb32n f = let v = int_of_f32 f in if v land 0x7fffffff > 0x7f800000 then 0x7fc00000 else v
 let c05 s b =
   let arena = parse_arena s in
   let nroots = next s in
@@ -266,7 +267,19 @@ let c05 s b =
         let inputs = List.map (fun v -> p.(int_of_nat v)) vars in
         let sem = f32_grad_sem orc in
         let st = eval_tape sem rt inputs (fun _ -> sem.s_dflt) (List.map (fun _ -> sem.s_dflt) roots) in
-        List.iter (fun g -> Printf.bprintf b " %d %d %d %d" (int_of_f32 g.gv) (int_of_f32 g.gx) (int_of_f32 g.gy) (int_of_f32 g.gz)) st.m_out) pts
+        List.iter (fun g -> Printf.bprintf b " %d %d %d %d" (int_of_f32 g.gv) (int_of_f32 g.gx) (int_of_f32 g.gy) (int_of_f32 g.gz)) st.m_out) pts;
+      (* the transform section: Transformable for Grad, then the tape of the last root alone *)
+      if not (at_end s) then begin
+        if next s = 1 then begin
+          let mat = times 16 (fun () -> next_f32 s) in
+          let last = List.nth roots (List.length roots - 1) in
+          (match rtape_of arena last, pts with
+           | Ok t, p :: _ ->
+             let g = geval_pt orc mat t p.(0).gv p.(1).gv p.(2).gv in
+             Printf.bprintf b " | t %d %d %d %d" (cb32n g.gv) (cb32n g.gx) (cb32n g.gy) (cb32n g.gz)
+           | _ -> Printf.bprintf b " | t build")
+        end else Printf.bprintf b " | t x"
+      end
 
 (* ---- C12 / C13: the Context model ------------------------------------------------- *)
 let buf_arena b (c : f32 cnode list) =
@@ -382,6 +395,42 @@ let c19 s b =
 
 
 
+
+
+(* ---- C06 / C07: the renderer models on the f32 instance ------------------------------ *)
+let cb32 f = let v = int_of_f32 f in
+  if v land 0x7fffffff > 0x7f800000 then 0x7fc00000 else if v = 0x80000000 then 0 else v
+let c06 s b =
+  let arena = parse_arena s in
+  let root = next_nat s in
+  let mat = times 16 (fun () -> next_f32 s) in
+  let zs = next_f32 s in
+  let pp = next s = 1 in
+  let nt = next s in
+  let tiles = times nt (fun () -> z_of_int (next s)) in
+  let w = z_of_int (next s) in let h = z_of_int (next s) in
+  match rtape_of arena root with
+  | Err c -> Printf.bprintf b "build err %d" (int_of_nat c)
+  | Ok t ->
+    let img = render2_32 libm_oracle mat zs pp tiles w h t in
+    Printf.bprintf b "img";
+    List.iter (function
+      | Fill (inside, depth) -> Printf.bprintf b " F%d.%d" (if inside then 1 else 0) (int_of_nat depth)
+      | Dist v -> Printf.bprintf b " %d" (cb32 v)) img
+let c07 s b =
+  let arena = parse_arena s in
+  let root = next_nat s in
+  let mat = times 16 (fun () -> next_f32 s) in
+  let nt = next s in
+  let tiles = times nt (fun () -> z_of_int (next s)) in
+  let w = z_of_int (next s) in let h = z_of_int (next s) in let d = z_of_int (next s) in
+  match rtape_of arena root with
+  | Err c -> Printf.bprintf b "build err %d" (int_of_nat c)
+  | Ok t ->
+    let (img, ok) = render3_32 libm_oracle mat tiles w h d t in
+    Printf.bprintf b "%s" (if ok then "img" else "assert-failed");
+    List.iter (fun p -> let ((nx, ny), nz) = p.g_normal in
+      Printf.bprintf b " %d:%d,%d,%d" (int_of_z p.g_depth) (cb32 nx) (cb32 ny) (cb32 nz)) img
 
 (* ---- C09: task counts of the raster fan-out and of the octree expansion -------------- *)
 let c09 s b =
@@ -592,6 +641,8 @@ let dispatch cmd s b =
   | "c18" -> c18 s b
   | "c14" -> c14 s b
   | "c09" -> c09 s b
+  | "c06" -> c06 s b
+  | "c07" -> c07 s b
   | "bcval" -> cmd_bcval s b
   | "c20" -> c20 s b
   | "c04" -> c04 s b
